@@ -50,6 +50,11 @@ def main():
     sdir = os.path.join(VERIF, "seeded")
     names = args or sorted(d for d in os.listdir(sdir) if os.path.isdir(os.path.join(sdir, d)))
     resf = os.path.join(sdir, "RESULTS.json")
+    for i, a in enumerate(sys.argv):
+        if a == "--out":
+            resf = sys.argv[i + 1]
+            args = [x for x in args if x != resf]
+    names = args or sorted(d for d in os.listdir(sdir) if os.path.isdir(os.path.join(sdir, d)))
     results = json.load(open(resf)) if os.path.exists(resf) else {}
     copy = "/tmp/seed_verif_%d" % os.getpid()
     sh(["rsync", "-a", "--delete", "--exclude", ".git", "--exclude", "replays", VERIF + "/", copy + "/"])
